@@ -247,10 +247,35 @@ def _check_val_and_text(ctx, tag, lang, cases, thr="0000000000000000", with_text
     return failures, len(reqs)
 
 
+def long_groups(ctx, lang, k=16):
+    """the 3-digit groups whose standard spelling is longest in UTF-8 bytes (a boundary class of its own: buffers,
+    length limits and byte/char confusions bite there first) — computed from the Lean speller"""
+    key = "longgroups_" + lang
+    if key not in ctx._cache:
+        cs = _spec_cases(ctx, "lg" + lang, ["gen\tcard\t%s\t%d\t0" % (lang, g) for g in range(1, 1000)])
+        sc = sorted(((len(unesc(ph).encode("utf-8")), int(g.split("\t")[3])) for (g, ph, e) in cs), reverse=True)
+        ctx._cache[key] = [g for (_, g) in sc[:k]]
+    return ctx._cache[key]
+
+
+def long_numbers(ctx, lang, limit=10 ** 12):
+    gs = long_groups(ctx, lang)
+    out = []
+    for a in gs:
+        for b in gs:
+            out.append(a * 1000 + b)
+    for a in gs[:8]:
+        for b in gs[:8]:
+            out.append(a * 10 ** 9 + b * 10 ** 6 + a * 1000 + b)
+            out.append(a * 10 ** 6 + b)
+    return [x for x in out if x < limit]
+
+
 def oracle_c01(ctx, focus, langs=None):
     failures, n, distinct = [], 0, set()
     for li, lang in enumerate(langs or LANGS):
         nums = card_numbers(ctx.tier, ctx.seed, li)
+        nums += [(x, sd) for x in long_numbers(ctx, lang) for sd in (0, 1 + (x % 999983))]
         gl = ["gen\tcard\t%s\t%d\t%d" % (lang, n_, s) for (n_, s) in nums]
         cases = _spec_cases(ctx, "c01" + lang, gl)
         # text-level check on a third of the cases
@@ -292,7 +317,9 @@ def oracle_c04(ctx, focus, langs=None):
     failures, n, distinct = [], 0, set()
     for lang in (langs or LANGS):
         ordmax, ninfl = ORD_SPEC[lang]
-        gl = ["gen\tord\t%s\t%d\t%d\t%d" % (lang, r, s, i) for (r, s, i) in ord_cases(ctx.tier, ctx.seed, lang, ordmax, ninfl)]
+        oc = ord_cases(ctx.tier, ctx.seed, lang, ordmax, ninfl)
+        oc += [(r, sd, i) for r in long_numbers(ctx, lang, limit=ordmax + 1) for (sd, i) in ((0, 0), (1 + r % 999983, (r % ninfl)))]
+        gl = ["gen\tord\t%s\t%d\t%d\t%d" % (lang, r, s, i) for (r, s, i) in oc]
         cases = _spec_cases(ctx, "c04" + lang, gl)
         a = [c for i, c in enumerate(cases) if i % 2 == 0]
         b = [c for i, c in enumerate(cases) if i % 2 == 1]
@@ -1473,7 +1500,10 @@ def oracle_c15(ctx, focus):
                     if s <= p_ and j < e:
                         failures.append(fail(r.split("\t")[3][:300], "separated tokens %d and %d in the same occurrence %d-%d" % (p_, j, s, e), "never joined", [r], what="separation-hint"))
             # comma equivalence: clear the hints and insert a comma token before each separated token
-            if sep_positions and len(comma_reqs) < (4000 if ctx.tier != "thorough" else 60000):
+            # (also for streams WITHOUT any separated pair whose timings are not the neutral ones: they must behave like the
+            # same stream with neutral timings — a hint that no token gave must not appear)
+            slow = any(tk["end"] - tk["start"] != 10 for tk in toks)
+            if (sep_positions or slow) and len(comma_reqs) < (4000 if ctx.tier != "thorough" else 60000):
                 cut = {j for (_, j) in sep_positions}
                 new, remap, t_ = [], {}, 0
                 for j, tk in enumerate(toks):
